@@ -4,6 +4,7 @@ import (
 	"fmt"
 	"go/ast"
 	"go/constant"
+	"go/token"
 	"go/types"
 	"sort"
 	"strings"
@@ -232,3 +233,148 @@ func ruleWireShapeCollision(p *Program, r *Report) {
 		r.Undecided("switch", "type switch of rel.jsonEscape not found", 0)
 	}
 }
+
+// R13c: numeric narrowing in the codecs is checked.  A float64→integer conversion of payload data is lossy outside
+// the integer range (and implementation-defined in Go).  In the codec code (package translate, the //encoding
+// natives, rel's JSON/number helpers) every such conversion must be (a) the module's round-trip idiom — the
+// converted value is compared, converted back, with the original (`float64(i) == f`) and every other use of it is
+// dominated by the equal branch — or (b) dominated by comparisons of the operand against constants on both sides.
+func ruleCheckedNarrowing(p *Program, r *Report) {
+	r.Begin("R13c", "checked numeric narrowing: in the codec code (package translate, syntax/std_encoding*.go, rel/json.go, rel/value_number.go) every float→integer conversion is the round-trip idiom (`i := int(f); if float64(i) == f` with every other use of i on the equal branch) or is dominated by range comparisons of the operand; an unguarded one encodes 1e19 as an arbitrary integer", 1)
+	defer r.End()
+	inScope := func(fn *ssa.Function) bool {
+		f := p.File(fn.Pos())
+		return strings.Contains(f, "translate/") || strings.Contains(f, "syntax/std_encoding") || strings.HasSuffix(f, "rel/json.go") || strings.HasSuffix(f, "rel/value_number.go")
+	}
+	isFloat := func(t types.Type) bool {
+		b, ok := t.Underlying().(*types.Basic)
+		return ok && b.Info()&types.IsFloat != 0
+	}
+	isInt := func(t types.Type) bool {
+		b, ok := t.Underlying().(*types.Basic)
+		return ok && b.Info()&types.IsInteger != 0
+	}
+	n := 0
+	for _, fn := range p.RepoFns {
+		if !inScope(fn) {
+			continue
+		}
+		ord := 0
+		ForEachInstr(fn, func(ins ssa.Instruction) {
+			cv, ok := ins.(*ssa.Convert)
+			if !ok || !isFloat(cv.X.Type()) || !isInt(cv.Type()) {
+				return
+			}
+			if _, isConst := cv.X.(*ssa.Const); isConst {
+				return
+			}
+			n++
+			ord++
+			r.Fn(FnName(fn))
+			key := fmt.Sprintf("narrowing@%s~%d", FnName(fn), ord)
+			// (a) round-trip idiom
+			var eqTrue *ssa.BasicBlock
+			if refs := cv.Referrers(); refs != nil {
+				for _, ref := range *refs {
+					back, ok := ref.(*ssa.Convert)
+					if !ok || !isFloat(back.Type()) || back.Referrers() == nil {
+						continue
+					}
+					for _, r2 := range *back.Referrers() {
+						bo, ok := r2.(*ssa.BinOp)
+						if !ok || (bo.Op != token.EQL && bo.Op != token.NEQ) || bo.Referrers() == nil {
+							continue
+						}
+						other := bo.X
+						if other == ssa.Value(back) {
+							other = bo.Y
+						}
+						if !sameValue(other, cv.X, 0) {
+							continue
+						}
+						for _, r3 := range *bo.Referrers() {
+							if iff, ok := r3.(*ssa.If); ok {
+								if bo.Op == token.EQL {
+									eqTrue = iff.Block().Succs[0]
+								} else {
+									eqTrue = iff.Block().Succs[1]
+								}
+							}
+						}
+					}
+				}
+			}
+			if eqTrue != nil && len(eqTrue.Preds) == 1 {
+				okUses := true
+				for _, ref := range *cv.Referrers() {
+					if back, isBack := ref.(*ssa.Convert); isBack && isFloat(back.Type()) {
+						continue
+					}
+					if _, isDbg := ref.(*ssa.DebugRef); isDbg {
+						continue
+					}
+					if !eqTrue.Dominates(ref.Block()) {
+						okUses = false
+					}
+				}
+				if okUses {
+					r.OK(key, "round-trip idiom: used only where float64(i) == f", cv.Pos())
+					return
+				}
+			}
+			// (b) range comparisons on both sides dominate
+			lower, upper := false, false
+			for d := cv.Block(); d != nil; d = d.Idom() {
+				id := d.Idom()
+				if id == nil {
+					break
+				}
+				iff, ok := id.Instrs[len(id.Instrs)-1].(*ssa.If)
+				if !ok {
+					continue
+				}
+				DependsOn(iff.Cond, func(x ssa.Value) bool {
+					bo, ok := x.(*ssa.BinOp)
+					if !ok {
+						return false
+					}
+					_, cy := bo.Y.(*ssa.Const)
+					_, cx := bo.X.(*ssa.Const)
+					var v ssa.Value
+					switch {
+					case cy:
+						v = bo.X
+					case cx:
+						v = bo.Y
+					default:
+						return false
+					}
+					if !(v == cv.X || sameValue(v, cv.X, 0)) {
+						return false
+					}
+					switch bo.Op {
+					case token.LSS, token.LEQ:
+						if cy {
+							upper = true
+						} else {
+							lower = true
+						}
+					case token.GTR, token.GEQ:
+						if cy {
+							lower = true
+						} else {
+							upper = true
+						}
+					}
+					return false
+				})
+			}
+			r.Check(lower && upper, key, "dominated by range comparisons on both sides", fmt.Sprintf("%s converts a float to %s with neither the round-trip test nor a range check: values outside the integer range (1e19, ±Inf, NaN) are encoded as arbitrary integers, so decoding does not give the value back", FnName(fn), cv.Type()), cv.Pos())
+		})
+	}
+	if n == 0 {
+		r.Undecided("sites", "no float→integer conversion found in the codec code (Number.Int is expected)", 0)
+	}
+}
+
+func init() { register("C13", Rule{"R13c", ruleCheckedNarrowing}) }
